@@ -173,7 +173,7 @@ for name in names:
         run(topo, eq, f'{name}:{sp}:{junction}:{"gain" if gain_mode else "power"}:{"voa_auto" if voa_auto else "stock"}')
 # user settings mixed with missing ones; per-degree targets; delta_p range
 for variant in ('per_degree', 'per_degree_psw', 'lumped', 'user_gain', 'user_delta_p', 'raman', 'delta_power_range', 'eol', 'fibre_overrides',
-                'design_band', 'multiband_in_voa'):
+                'design_band', 'multiband_in_voa', 'multiband_zero_gain'):
     eq = equipment()
     sites, links = TOPOLOGIES['ring3']
     rp = {'A': {'per_degree_pch_out_db': {'east edfa in roadm A to roadm B': -17.5}}} if variant == 'per_degree' else None
@@ -206,6 +206,18 @@ for variant in ('per_degree', 'per_degree_psw', 'lumped', 'user_gain', 'user_del
             if e['type'] == 'Multiband_amplifier' and 'preamp' in e['uid']:
                 for amp_ in e['amplifiers']:
                     amp_['operational'] = {'gain_target': None, 'delta_p': None, 'tilt_target': None, 'out_voa': None, 'in_voa': 2.0}
+    if variant == 'multiband_zero_gain':
+        # gain mode, an operator gain of exactly 0 dB on the band amplifiers of the preamps: a setting like any other
+        CL_ = [{'f_min': 191.3e12, 'f_max': 196.0e12, 'spacing': 50e9}, {'f_min': 186.6e12, 'f_max': 190.0e12, 'spacing': 50e9}]
+        eq = equipment('eqpt_config_multiband.json')
+        eq['Span']['default'].power_mode = False
+        topo = mesh(sites, links, spans={l: [70] for l in links}, roadm_params={x: {'design_bands': CL_} for x in sites})
+        first = design(deepcopy(topo), deepcopy(eq))[0]
+        topo = network_to_json(first)
+        for e in topo['elements']:
+            if e['type'] == 'Multiband_amplifier' and 'preamp' in e['uid']:
+                for amp_ in e['amplifiers']:
+                    amp_['operational'] = {'gain_target': 0.0, 'delta_p': None, 'tilt_target': 0.0, 'out_voa': 0.0, 'in_voa': 0.0}
     if variant == 'lumped':
         for e in topo['elements']:
             if e['uid'] == 'fiber (A -> B)-1':
